@@ -209,6 +209,26 @@ func gen(tier string) []proto.Item {
 		}
 	}
 
+	// relaxed variants behind a NAT that leaves its public source address (and port) in the quotes of the ICMP errors that
+	// come back - the routers' and the destination's alike: the destination's answer still ends the emission
+	for _, v := range proto.Variants {
+		vi := proto.Info(v)
+		if !vi.Relaxed || !vi.Parallel || vi.Kind == "icmp4" || vi.Kind == "icmp6" {
+			continue
+		}
+		for _, rw := range [][]simnet.Perturb{{{Field: "q.src", Op: "other", Other: 0x21}}, {{Field: "q.src", Op: "other", Other: 0x21}, {Field: "q.sport", Op: "other", Other: 40001}}} {
+			s := proto.Scn{Variant: v, First: 1, Last: 9, Dest: 3, IPIDBase: 600, EchoBase: 61, TimeoutMs: 300, DelayMs: 10}
+			s.Hops = map[int]proto.HopSpec{}
+			for t := 1; t <= 9; t++ {
+				if vi.Kind == "sack" && t >= 3 {
+					continue // (the SACK destination answers with acknowledgements, not with quotes)
+				}
+				s.Hops[t] = proto.HopSpec{Rewrite: rw}
+			}
+			items = append(items, proto.Item{Scn: s, Class: fmt.Sprintf("%s/nat-leaves-its-source-in-the-quotes/%d-fields", v, len(rw))})
+		}
+	}
+
 	return items
 }
 
